@@ -19,16 +19,16 @@ ASSUMPTIONS = [
     "DOO's default delta(h) is recomputed from the boxes of the cells listed at depth h (first coordinate, as documented)",
     "ties: any maximiser accepted; b-values compared to rel. 1e-9",
 ]
-FLOOR = {"expansions_judged": {"quick": 10000, "thorough": 80000},
-         "handouts_checked": {"quick": 30000, "thorough": 240000},
-         "runs_where_the_cap_was_reached": {"quick": 40, "thorough": 320},
-         "adversarial_exact_ties_made": {"quick": 3000, "thorough": 24000}}
+FLOOR = {"expansions_judged": {"quick": 20000, "thorough": 80000},
+         "handouts_checked": {"quick": 60000, "thorough": 240000},
+         "runs_where_the_cap_was_reached": {"quick": 80, "thorough": 320},
+         "adversarial_exact_ties_made": {"quick": 6000, "thorough": 24000}}
 WALL = {"quick": 1200, "thorough": 4 * 3600}
 ALG = ["SOO", "StoSOO", "DOO", "DOO_delta", "SOO", "StoSOO"]
 
 
 def gen_cases(rng, tier, count=None):
-    count = count or (600 if tier == "quick" else 10000)
+    count = count or (1200 if tier == "quick" else 10000)
     out = []
     for i in range(count):
         a = ALG[i % len(ALG)]
